@@ -17,6 +17,13 @@ def c17 (args : List String) : String :=
   | ["ns", h] => match unhex h with
     | some b => "r=" ++ hexNat17 (nonspaceBits b.toList)
     | none => "bad-args"
+  | ["d2i", a, need] => match unhex a, need.toNat? with
+    | some a, some need =>
+      let sc := str2intScalar a.toList need
+      match str2intSimd (a.toList.take 16) need with
+      | some (r, n) => if (r, n) = sc then s!"r={r} n={n}" else s!"MODEL-SPLIT simd r={r} n={n} scalar r={sc.1} n={sc.2}"
+      | none => "unreachable"
+    | _, _ => "bad-args"
   | ["v", n, a, c] => match n.toNat?, unhex a, unhex c with
     | some n, some a, some c =>
       let v := a.toList.take n
